@@ -106,6 +106,22 @@ def run_runloop_cases(rep, prop, ncases, rng, broken, rounds=6):
         cases.append(c)
     RG.normalize_orders(cases)
     outs = common.run_impl("runloop", [RG.strip(c) for c in cases], "dev")
+    # a watchdog hit may be machine load, not the loop: re-run each such scenario alone with a
+    # generous real-time bound before it counts (a genuinely spinning loop still hangs then)
+    import os
+    retried = 0
+    for i, o in enumerate(outs):
+        if isinstance(o, dict) and "hang" in o and retried < 8:
+            retried += 1
+            old_env = os.environ.get("RUNLOOP_WATCHDOG_S")
+            os.environ["RUNLOOP_WATCHDOG_S"] = "240"
+            try:
+                outs[i] = common.run_impl("runloop", [RG.strip(cases[i])], "dev", timeout=600)[0]
+            finally:
+                if old_env is None:
+                    os.environ.pop("RUNLOOP_WATCHDOG_S", None)
+                else:
+                    os.environ["RUNLOOP_WATCHDOG_S"] = old_env
     coq_cases, pred_fail = [], []
     steps, dist, proposals, stopped, hangs = 0, set(), 0, 0, []
     acked = 0
